@@ -5,11 +5,13 @@ CONSTANTS
   MaxDebounce = 1
   MaxEvents = 0
   MaxProbeFail = 0
+  MaxCtlFail = 0
   MaxAddHost = 0
   OnlyDebouncer = FALSE
   WithControl = FALSE
   Defect_StopHandshake = TRUE
   Defect_HeartbeatStart = FALSE
   Defect_LatePool = FALSE
+  Defect_ReconnectInline = FALSE
   Mut = "none"
 INVARIANTS TypeOK NoPanic AllClosedAfterClose QueryAfterClose CancelAfterPools
